@@ -86,6 +86,12 @@ def atom_thunks():
         for v in (1, 2, 2.5):
             add(f"{nm} {v}", lambda mk=mk, v=v: mk(v))
     add("eq 'a'", lambda: eq_p("a"))
+    # unhashable constants are legitimate for eq_p / ne_p (built afresh each time: equal, distinct objects)
+    for nm, mk in (("eq", eq_p), ("ne", ne_p)):
+        add(f"{nm} [1, 2]", lambda mk=mk: mk([1, 2]))
+        add(f"{nm} {{'a': 1}}", lambda mk=mk: mk({"a": 1}))
+        add(f"{nm} {{1, 2}}", lambda mk=mk: mk({1, 2}))
+    add("ne []", lambda: ne_p([]))
     # canonically equivalent but different strings (NFD / NFC): == tells them apart, so must every atom
     for mk, nm in ((eq_p, "eq"), (ne_p, "ne"), (ge_p, "ge"), (lt_p, "lt")):
         add(f"{nm} 'cafe\\u0301'", lambda mk=mk: mk("cafe\u0301"))
